@@ -88,7 +88,8 @@ inline std::unique_ptr<ISpline> makeSplineHist(Ctx &c, Rng &r, const Problem &p,
             if (k == 0)
             {
                 q2.T = prev.T;
-                q2.t0 = prev.t0;
+                if (r.coin())
+                    q2.t0 = prev.t0; // else: the same durations from another start time
             }
             else if (k == 3)
             {
@@ -884,8 +885,10 @@ inline void runC18(Ctx &c)
             go.base_hi = 10.0;
             go.dur_pattern = (int)((idx / 8) % kNumDurPatterns);
             // dense data only: the relative-jump measure is meaningless where a derivative vanishes identically
-            static const int denseClasses[] = {0, 0, 3, 4, 5};
-            go.data_class = denseClasses[r.range(0, 4)];
+            // (a coordinate that is constant but has non-zero boundary derivatives decays away from the ends like sparse
+            // data: only used for few segments, where nothing has decayed to rounding level yet)
+            static const int denseClasses[] = {0, 0, 3, 4, 5, 7};
+            go.data_class = denseClasses[r.range(0, cl.N <= 5 ? 5 : 4)];
             int pat = 0, dc = 0;
             Problem p = genProblem(r, cl.order, cl.dim, cl.N, go, &pat, &dc);
             // keep every duration inside the optimizer's accepted range and the ratio within 100
